@@ -35,7 +35,22 @@ Total  <= (1.5 n + 2 deg + 11) u W B  (deg <= 12).  Measured on the unchanged co
 requests each, narrow / tiny / scaled / long families included): the worst |v - reference| is 0.26 (n + 8) u W B for
 Simpson / trapezoid and 3.6 u W B for Romberg; the allowances 32 (n + 8) u W B and 1024 u W B leave a factor > 120
 (Simpson) / > 280 (Romberg) and exceed the derived bounds.
-An absolute floor 2^-1000 covers gradual underflow.
+Gradual underflow (absolute allowance, replaces the former blanket floor 2^-1000 so that results of size 2^-1000..2^-1074
+are judged too).  Below 2^-1022 every product and every power errs by at most 2^-1075 in ABSOLUTE terms (sums of
+subnormals and the weights 2 f, 3 f, 4 f are exact):
+  * a subnormal segment width h = fl((b-a)/n) is off by up to 2^-1075, i.e. by 2^-1075/|h| relative: the rule moves by
+    n 2^-1075 max|f|, and the abscissae drift by n 2^-1075, together <= 2 n 2^-1075 B;
+  * each sample: sum_k (|c_k| + 1) 2^-1075 (x^k underflows, then c_k x^k), in the rule W sum_k (|c_k| + 1) 2^-1075;
+  * the closing products h * sum / 3, 3 h * sum / 8 and the splice: <= 8 * 2^-1075.
+Allowance 16 x that:  2^-1071 (2 n B + W sum_k (|c_k| + 1) + 8)   (Romberg: n = 512, the closing 64).
+
+The edge of the range at the top ("non-finite result" is a failure only where the statement's own formula, evaluated in
+the textbook order, stays inside binary64): b - a, every power X^k of a term the code evaluates (zero coefficients
+included: 0 * inf is NaN), the weighted sample sums (<= (3 n + 8) B0, B0 = sum |c_k| X^k >= max|f|) and their products
+with h and 3 h must stay below 2^1020; for Romberg the trapezoid sums (<= 1024 B0) and the Richardson products 4^k R
+(<= 2^19 W B0).  For Simpson / trapezoid requests that fail this crude test the rule is evaluated literally at its exact
+nodes (`in_range_exact`, limit 2^1023).  Beyond that the oracle abstains - an implementation may overflow there because
+the formula does.
 """
 import struct
 from fractions import Fraction
@@ -43,7 +58,7 @@ from fractions import Fraction
 TOLS = [-1.0, 0.0, 1e-12, 1e-9, 1e-6, 1e-3, 0.1, 1.0, 10.0]
 U = Fraction(1, 2 ** 53)
 
-RULE = ("simpson: the segment counts 1,2,3,4,5,7 on every degree 0..8 x both polynomial types x four interval "
+RULE = ("(round 3, the edge of the number range: amplitudes that put the largest quantity of the rule - weighted sample sums, their products with h and 3 h - at 0.55..0.97 of 2^1023 or within 40 binades below the crude bound; amplitudes 2^-990..2^-1080 judged with an absolute underflow allowance of a few units of 2^-1074 instead of a blanket floor; widths that are small multiples of 2^-1074 under amplitudes of 2^900..2^1015; abscissae at 2^(1000/deg) with narrow [relative 2^-1..2^-50] and wide intervals; intervals wider than f64::MAX; abscissae inside the subnormal range) simpson: the segment counts 1,2,3,4,5,7 on every degree 0..8 x both polynomial types x four interval "
         "kinds, then every n in 1..200 x (10 quick / 400 thorough) random polynomials (half of degree <= 3, half 4..8; "
         "small dyadic coefficients; intervals dyadic, reversed, empty, symmetric, decimal, arbitrary); romberg: every "
         "cap 0..64 x every tolerance in {-1,0,1e-12,1e-9,1e-6,1e-3,0.1,1,10} x (5 quick / 61 thorough) polynomials "
@@ -143,11 +158,68 @@ def value(terms, x):
     return sum(c * x ** e for c, e in terms)
 
 
-def slack(terms, a, b, n):
+def slack(terms, a, b, n, romberg=False):
     W = abs(b - a)
     X = max(abs(a), abs(b))
     B = sum((e + 1) * abs(c) * X ** e for c, e in terms)
-    return 32 * (n + 8) * U * W * B + Fraction(1, 2 ** 1000)
+    nn, closing = (512, 64) if romberg else (n, 8)
+    floor = Fraction(1, 2 ** 1071) * (2 * nn * B + W * sum(abs(c) + 1 for c, _ in terms) + closing)
+    return 32 * (n + 8) * U * W * B + floor
+
+
+TOP = 2 ** 1020
+
+
+def in_range(terms, a, b, n, romberg):
+    """does the textbook evaluation of the rule stay inside binary64 (see the module docstring)?"""
+    W = abs(b - a)
+    X = max(abs(a), abs(b))
+    if W >= TOP:
+        return False
+    if X > 1 and any(X ** e >= TOP for _, e in terms):
+        return False
+    B0 = sum(abs(c) * X ** e for c, e in terms)
+    if romberg:
+        return B0 * max(1024, 2 ** 19 * W) < TOP
+    h = W / max(n, 1)
+    if (3 * n + 8) * B0 * max(1, 3 * h) < TOP:
+        return True
+    return in_range_exact(terms, a, b, n)
+
+
+LIM = 2 ** 1023
+
+
+def in_range_exact(terms, a, b, n):
+    """The rule evaluated literally at its exact nodes a + i h: every term c_k x^k, every sample, the weighted sums of the
+    1/3 part and of the 3/8 panel taken with ABSOLUTE values (so that every partial sum in any order is covered), and
+    their products with h and 3 h stay below 2^1023 - one binade under the largest double, which absorbs the rounding
+    of the nodes and of the sums.  Within these limits the code's own order of operations cannot overflow, and an
+    implementation that does (3 * sum before * h, a scaled accumulator, ...) is wrong "although every term, every
+    in-order partial sum and the result are finite"."""
+    if n < 1 or n > 4096:
+        return False
+    h = (b - a) / n
+    fs = []
+    for i in range(n + 1):
+        x = a + i * h
+        if sum(abs(c) * abs(x) ** e for c, e in terms) >= LIM:
+            return False
+        fs.append(abs(value(terms, x)))
+    ah = abs(h)
+    if n == 1:
+        return fs[0] + fs[1] < LIM and ah * (fs[0] + fs[1]) < LIM
+    m = n
+    if n % 2 == 1:
+        s8 = fs[n - 3] + 3 * fs[n - 2] + 3 * fs[n - 1] + fs[n]
+        if s8 >= LIM or 3 * ah * s8 >= LIM:
+            return False
+        m = n - 3
+    if m >= 2:
+        s13 = fs[0] + fs[m] + sum((4 if i % 2 == 1 else 2) * fs[i] for i in range(1, m))
+        if s13 >= LIM or ah * s13 >= LIM:
+            return False
+    return True
 
 
 def fact(j):
@@ -201,7 +273,7 @@ def oracle(req, impl):
             return "definite_integral returned " + " ".join(out)
         v = fr(out[1][1:])
         if v is None:
-            return "non-finite result"
+            return "non-finite result" if in_range(terms, a, b, n, False) else None
         sl = slack(terms, a, b, n)
         if n == 1:
             trap = (b - a) * (value(terms, a) + value(terms, b)) / 2
@@ -228,9 +300,9 @@ def oracle(req, impl):
         return "unexpected outcome " + " ".join(out)
     v = fr(out[1][1:])
     if v is None:
-        return "non-finite result"
+        return "non-finite result" if in_range(terms, a, b, 1, True) else None
     if deg <= 3:
-        sl = slack(terms, a, b, 24)      # 1024 u W B
+        sl = slack(terms, a, b, 24, True)      # 1024 u W B
         if abs(v - I) > sl:
             return "romberg, degree %d: returned value off by %.3g > rounding slack %.3g" % (
                 deg, float(abs(v - I)), float(sl))
@@ -298,7 +370,7 @@ def compare(req, impl, model):
             return "field 1: impl %s model %s" % (ti[1], tm[1])
         vx, vy = fr(ti[1][1:]), fr(tm[1][1:])
         if uni and a is not None and b is not None and vx is not None and vy is not None and not (cmd == "simpson" and n == 0):
-            allow = slack(terms, a, b, n if cmd == "simpson" else 24)
+            allow = slack(terms, a, b, n if cmd == "simpson" else 24, cmd != "simpson")
             if abs(vx - vy) <= allow:
                 return None
             return "field 1: impl %s model %s (differ by %.3g, more than the rounding allowance %.3g)" % (
